@@ -85,6 +85,29 @@ def _check(s, stats, proc):
     return r
 
 
+def _fold_alg(p):
+    """coefficients with the algebraic constants (sqrt n symbols) evaluated numerically, grouped by the
+    remaining monomial: only used by the floating-point tolerance retry"""
+    import math
+    from fractions import Fraction
+    out = {}
+    alg = P.TAB.powrule
+    for m, c in p.t.items():
+        val = None
+        rest = []
+        for sid, e in m:
+            if sid in alg and alg[sid][0] == 2 and sid in P._ALG.values():
+                val = (val if val is not None else 1.0) * math.sqrt(alg[sid][1]) ** float(e)
+            else:
+                rest.append((sid, e))
+        if val is None:
+            key, cc = m, c
+        else:
+            key, cc = tuple(rest), Fraction(float(c) * val)
+        out[key] = out.get(key, 0) + cc
+    return out
+
+
 def q_id(pairs, stats, timeout_ms=60000, nra_limit=400):
     """pairs: list of (lhs Poly, rhs Poly).  Returns ('unsat'|'sat'|'unknown', bad_indices)."""
     t0 = time.time()
@@ -106,6 +129,26 @@ def q_id(pairs, stats, timeout_ms=60000, nra_limit=400):
     s.add(z3.Or([l for _, l in lits]))
     r = _check(s, stats, "Q-ID/LRA")
     bad = []
+    if r == "sat" and P.STATS["inexact_float_lifts"] > 0:
+        # constants produced by numeric LAPACK on constant arrays (e.g. the SVD factors of a CX gate)
+        # are floats that are not exactly representable: compare up to 1e-9 in the coefficients
+        # ("up to floating point"); the query is repeated on the differences with negligible
+        # coefficients dropped
+        s2 = z3.SolverFor("QF_LRA")
+        s2.set("timeout", timeout_ms)
+        atoms2 = _MonoAtoms()
+        lits2 = []
+        for i, (a, b) in enumerate(pairs):
+            dd = _fold_alg(a - b)
+            scale = max([abs(float(c)) for c in list(a.t.values()) + list(b.t.values())] or [1.0])
+            keep = {m: c for m, c in dd.items() if abs(float(c)) > 1e-9 * max(1.0, scale)}
+            lits2.append((i, atoms2.lin(P.Poly(keep)) != 0))
+        s2.add(z3.Or([l for _, l in lits2]))
+        r2 = _check(s2, stats, "Q-ID/LRA(1e-9 coefficient tolerance)")
+        if r2 == "unsat":
+            stats.by_proc["tolerance_discharged"] = stats.by_proc.get("tolerance_discharged", 0) + 1
+            return "unsat", []
+        s, lits = s2, lits2
     if r == "sat":
         m = s.model()
         for i, l in lits:
